@@ -458,6 +458,7 @@ class XformWorld:
         self.n_roots = 0
         self.step = 0
         self.xf: Dict[Tuple[int, str], Any] = {}  # persistent ImageTransformer / PointSetTransformer per (handle, kind)
+        self.nohook: Dict[int, Any] = {}  # hook containers (kept alive) from which the update hook was removed
 
     # ------------------------------------------------------------ bookkeeping
     def close(self):
@@ -1072,6 +1073,11 @@ class _Ops:
             return StepResult("skipped")
         N = self.batch_of(x.obj)
         use_grid = bool(op.get("grid"))
+        if self.hookless(x):
+            # no implicit update(): the call is an observation of the buffers, like disp()
+            self.c["probes"]["call_without_update_hook"] += 1
+            return self.op_disp({"op": "disp", "h": op["h"], "which": "call", "pseed": op["pseed"], "cgrid": use_grid,
+                                 "interrupt": op.get("interrupt")})
         if use_grid:
             pts = x.obj.grid().coords().unsqueeze(0)
         else:
@@ -1175,7 +1181,12 @@ class _Ops:
         if valid:
             tw, terr = self._twin(x)
 
+        if which == "call":
+            cpts = x.obj.grid().coords().unsqueeze(0) if op.get("cgrid") else self.pts(op["pseed"], self.batch_of(x.obj))
+
         def f(t):
+            if which == "call":
+                return t(cpts, grid=bool(op.get("cgrid")))
             if which == "tensor":
                 return t.tensor()
             if which == "flow":
@@ -1224,9 +1235,10 @@ class _Ops:
             out.violations.append(self.viol("C09", "twin-failed", x, which, self.exc_detail(dt)))
             return out
         ok, err = close(d, dt)
-        self.c["checks"][which + "_vs_twin"] += 1
+        label = "call_nohook" if which == "call" else which
+        self.c["checks"][label + "_vs_twin"] += 1
         if id(x.obj) in self.fresh_changed:
-            self.c["checks"][which + "_right_after_change"] += 1
+            self.c["checks"][label + "_right_after_change"] += 1
             self.nontrivial = True
         if not ok:
             v = self.viol("C09", "stale-obs", x, self.last_change.get(id(x.obj), "-"),
@@ -1254,6 +1266,52 @@ class _Ops:
             out.violations.append(v)
             out.digest = "stale-obs"  # the stale value may be uninitialised memory: keep it out of the run digest
         return out
+
+    # -------------------------------------------------------- explicit-update protocol (update hook removed)
+    def hookless(self, x) -> bool:
+        """The forward pre-hook that calls update() was removed from the hook container x's object uses
+        (shallow copies share that container by documentation)."""
+        return id(x.obj._forward_pre_hooks) in self.nohook
+
+    def inherit_hooks(self, src, dst):
+        """Deep copies have their own hook containers with the same content."""
+        if id(src._forward_pre_hooks) in self.nohook:
+            self.nohook[id(dst._forward_pre_hooks)] = dst._forward_pre_hooks
+        if isinstance(src, CompositeTransform) and isinstance(dst, CompositeTransform):
+            for a, b in zip(src.transforms(), dst.transforms()):
+                self.inherit_hooks(a, b)
+
+    def op_hook(self, op) -> StepResult:
+        """``remove_update_hook()`` / ``register_update_hook()``: the documented protocol for applications that call
+        ``update()`` themselves.  While the hook is removed a call evaluates whatever the buffers hold (judged like
+        ``disp()``); after ``update()`` and after re-registration a call must again use the current state."""
+        x = self.get(op["h"])
+        if x is None:
+            return StepResult("skipped")
+        t = x.obj
+        cont = t._forward_pre_hooks
+        mode = op["mode"]
+        if mode == "remove":
+            hd = getattr(t, "_update_hook_handle", None)
+            if id(cont) in self.nohook or hd is None or hd.id not in cont or len(cont) != 1:
+                return StepResult("skipped")
+            st, r = self.guarded(lambda: t.remove_update_hook())
+            bad = self.classify(st, r, x, "remove_update_hook")
+            if bad:
+                return bad
+            self.nohook[id(cont)] = cont
+            self.c["probes"]["update_hook_removed"] += 1
+            return StepResult("ok", "hook-removed")
+        if id(cont) not in self.nohook:
+            return StepResult("skipped")
+        st, r = self.guarded(lambda: t.register_update_hook())
+        bad = self.classify(st, r, x, "register_update_hook")
+        if bad:
+            return bad
+        del self.nohook[id(cont)]
+        self.c["probes"]["update_hook_registered_again"] += 1
+        self.note_change(x, "register_update_hook")
+        return StepResult("ok", "hook-registered")
 
     def op_update(self, op) -> StepResult:
         x = self.get(op["h"])
@@ -1376,7 +1434,7 @@ class _Ops:
         if x is None:
             return StepResult("skipped")
         params = [p for p in x.obj.parameters() if p.requires_grad]
-        if not params or self.has_none(x) or not self.links_synced(x):
+        if not params or self.has_none(x) or not self.links_synced(x) or self.hookless(x):
             return StepResult("skipped")  # optimising through a stale/uninitialised link cache would poison shared parameters
         N = self.batch_of(x.obj)
         pts = self.pts(op["pseed"], N)
@@ -1843,6 +1901,7 @@ class _Ops:
             return StepResult("ok", how + "-raised", [self.viol("C09", "raises", x, how, self.exc_detail(r))])
         y = self.add_with_members(int(op["out"]), r, None, how, smooth=x.smooth, member_buf="unknown") if isinstance(r, CompositeTransform) else self.add(int(op["out"]), r, None, how, buf=x.buf, smooth=x.smooth)
         y.affine_params = getattr(x, "affine_params", False)
+        self.inherit_hooks(t, r)
         if any(kind_of(e.obj) in ("C", "L") for e in self.elems(y)):
             # a copied callable is no longer owned by the simulator: do not use this handle
             y.alive = False
@@ -2203,7 +2262,7 @@ class _Ops:
         T, I = self.get(p.t), self.get(p.i)
         if not p.valid or T is None or I is None:
             return StepResult("skipped")
-        if self.has_none(T):
+        if self.has_none(T) or self.hookless(T) or self.hookless(I):
             return StepResult("skipped")
         if not self.links_synced(T):
             # a linked forward transform reads a cached prediction that its target has not refreshed yet
@@ -2359,10 +2418,10 @@ PROFILES = {
     # weights of operation kinds; observation ops are additionally boosted right after a change
     "C09": {"call": 10, "disp": 9, "update": 2, "clear": 1.5, "data_": 6, "inplace": 5, "sgd": 2, "reset": 2, "grid_": 5,
             "condition_": 4, "copy": 6, "deepcopy": 1.5, "inverse": 3, "link_": 1.5, "compose": 2, "roundtrip": 2,
-            "arm": 2, "interrupt": 3.5, "checkpoint": 3, "restart": 3, "fit": 2.5, "restore": 2, "cast": 1},
+            "arm": 2, "interrupt": 3.5, "checkpoint": 3, "restart": 3, "fit": 2.5, "restore": 2, "cast": 1, "hook": 1.2},
     "C07": {"call": 4, "disp": 2, "update": 1, "clear": 0.5, "data_": 5, "inplace": 7, "sgd": 3, "reset": 1.5, "grid_": 1,
             "condition_": 4, "copy": 2, "deepcopy": 0.5, "inverse": 9, "link_": 0.5, "compose": 2.5, "roundtrip": 16,
-            "arm": 1, "interrupt": 1, "checkpoint": 1, "restart": 1, "fit": 1.5, "restore": 0.7, "cast": 0.5},
+            "arm": 1, "interrupt": 1, "checkpoint": 1, "restart": 1, "fit": 1.5, "restore": 0.7, "cast": 0.5, "hook": 0.3},
 }
 
 
@@ -2483,6 +2542,11 @@ class _Gen:
         if self.fresh_changed:
             W["disp"] *= 4
             W["call"] *= 2
+        if self.nohook:
+            # the explicit-update protocol is in force somewhere: updates, calls, and the way back
+            W["hook"] *= 12
+            W["update"] *= 4
+            W["call"] *= 1.5
         if self.hot:
             W["roundtrip"] *= 1.5
         if not any(p.valid for p in self.pairs):
@@ -2752,6 +2816,16 @@ class _Gen:
             op["grid"] = gen.grid_desc(rng, self.D, 6, 14 if self.D == 2 else 8)
             op["grid"]["center"] = list(self.base_grid_desc["center"])
         return op
+
+    def gen_hook(self, rng):
+        off = [y for y in self.live() if self.hookless(y)]
+        if off and rng.chance(0.75):
+            x = rng.choice(off)  # any handle sharing the container may re-register (not necessarily the one that removed)
+            return {"op": "hook", "h": x.hid, "mode": "register"}
+        x = self.pick(rng, lambda y: not self.hookless(y) and not self.has_none(y))
+        if x is None:
+            return None
+        return {"op": "hook", "h": x.hid, "mode": "remove"}
 
     def gen_cast(self, rng):
         x = self.pick(rng, lambda y: not self.has_none(y) and not any(kind_of(e.obj) in ("C", "L") for e in self.elems(y)))
